@@ -352,9 +352,9 @@ theorem foldl_state_indep (cfg : Cfg) (hd : HD K P) (ops : List (Op K P)) :
 /-- **A wallet re-created from the same seed behaves identically**: whatever happened before, after
     `Create(root)` the state — hence every address subsequently issued, looked up or derived, and every key
     returned — is a function of the seed's root key and the operations that follow alone. -/
-theorem C03_recreate_same (cfg : Cfg) (hd : HD K P) (root : K) (pre ops : List (Op K P)) :
-    (run cfg hd (pre ++ .create root :: ops)).1 = (run cfg hd (.create root :: ops)).1 := by
-  have hstep : ∀ s s' : State K P, step cfg hd s (.create root) = step cfg hd s' (.create root) := by
+theorem C03_recreate_same (hd : HD K P) (root : K) (pre ops : List (Op K P)) :
+    (run Cfg.fixed hd (pre ++ .create root :: ops)).1 = (run Cfg.fixed hd (.create root :: ops)).1 := by
+  have hstep : ∀ s s' : State K P, step Cfg.fixed hd s (.create root) = step Cfg.fixed hd s' (.create root) := by
     intro s s'; simp [step]
   unfold run
   cases pre with
@@ -362,7 +362,7 @@ theorem C03_recreate_same (cfg : Cfg) (hd : HD K P) (root : K) (pre ops : List (
   | cons p ps =>
     simp only [List.cons_append, List.foldl_cons, List.foldl_append]
     rw [hstep _ emptyState]
-    exact foldl_state_indep cfg hd ops _ _ _
+    exact foldl_state_indep Cfg.fixed hd ops _ _ _
 
 -- ---------------------------------------------------------------------------------------------------------
 -- the F3 defect (fixed in the official tree by fd5efc1) and non-vacuity
